@@ -16,6 +16,7 @@ import (
 
 	"github.com/zerx-lab/wordZero/pkg/document"
 
+	"verif/foreign"
 	"verif/sim"
 )
 
@@ -29,6 +30,10 @@ type Doc struct {
 	Saves  int
 	Last   []byte // bytes of the most recent save
 	Dead   bool   // a previous op on this document panicked or restart failed
+	// Foreign is set when the document was opened from a package written by
+	// the foreign producer (Base = those bytes).
+	Foreign *foreign.Result
+	Base    []byte
 }
 
 // Obs is what one operation returned, in canonical text form.
@@ -181,6 +186,22 @@ func (w *World) apply(ds *Doc, op sim.Op, o *Obs) {
 		w.opRestart(ds, op, o)
 	case k == "prestart":
 		w.opProcessRestart(op, o)
+	case k == "foreign": // I[0]=seed, I[1]=feature flags, I[2]=open path
+		res := foreign.Build(uint64(op.Int(0)), op.Int(1))
+		d2, err := w.OpenBytes(res.Bytes, op.Int(2))
+		o.Err = err
+		if err != nil {
+			ds.Dead = true
+			o.Res = "open-err"
+			return
+		}
+		ds.D, ds.Foreign, ds.Base, ds.Dead = d2, res, res.Bytes, false
+		ds.Paras, ds.Tables, ds.Images = nil, nil, nil
+		if d2.Body != nil {
+			ds.Paras = append(ds.Paras, d2.Body.GetParagraphs()...)
+			ds.Tables = append(ds.Tables, d2.Body.GetTables()...)
+		}
+		w.Stats.Probe("foreign_opened")
 	case strings.HasPrefix(k, "t."):
 		w.applyTable(ds, op, o)
 	case strings.HasPrefix(k, "p."):
